@@ -99,10 +99,23 @@ class StopMonitor(Monitor):
     def on_write(self, tr, data):
         self.writes_now.append((tr, data))
 
+    @staticmethod
+    def _queued_writes():
+        # writes a send has handed to the reactor thread (callFromThread(write_tcp_thread, ...)) and that have not run yet
+        return sum(1 for f, a, kw in reactor._thread_q if getattr(f, '__name__', '') == 'write_tcp_thread')
+
+    def _from_queue(self, frames):
+        """True if what was written during this event is explained by UPDATEs that were already queued for the reactor thread
+        before it (known finding rest-send-queued-before-manual-stop: the send was answered / counted before the stop)"""
+        ran = self.q_before - self._queued_writes()
+        body = [f for f in frames if f[0] != 3]
+        return bool(body) and ran > 0 and all(f[0] == 2 for f in body) and len(body) <= ran
+
     def before(self, ev):
         self.cur = ev
         self.writes_now = []
         self.connects_now = 0
+        self.q_before = self._queued_writes()
         name = parse_event(ev)[0]
         if name in ('STOP', 'START'):
             self.pre = dict(state=self.w.rest_state(), tracked=self.w.tracked_transport(),
@@ -137,7 +150,11 @@ class StopMonitor(Monitor):
                 if not any(f[0] == 3 and f[1] == 6 for f in frames):
                     self.report('stop-no-cease', 'stop in Established wrote %s, no Cease' % (frames,), feats)
             if any(f[0] != 3 for f in frames):
-                self.report('stop-wrote', 'stop wrote non-NOTIFICATION frames %s' % (frames,), feats)
+                if self._from_queue(frames):
+                    self.report('write-after-stop', 'UPDATE(s) a send had queued for the reactor thread before the stop were written after it: %s' % (frames,),
+                                feats + ['race:send-queued-before-stop'])
+                else:
+                    self.report('stop-wrote', 'stop wrote non-NOTIFICATION frames %s' % (frames,), feats)
             if is_lazy(ev):
                 # the reactor has not finished the instant of this stop: whether the connection is closed is judged when it has
                 self.to_be_closed = (list(self.pre['live']), feats)
@@ -175,7 +192,8 @@ class StopMonitor(Monitor):
             feats = ['event:' + name]
             if self.writes_now:
                 fr = [wire.summarize(f) for f in wire.frames_of_writes([(0, d) for _, d in self.writes_now])]
-                self.report('write-after-stop', 'after manual-stop, event %s made the agent write %s' % (ev, fr), feats)
+                self.report('write-after-stop', 'after manual-stop, event %s made the agent write %s' % (ev, fr),
+                            feats + (['race:send-queued-before-stop'] if self._from_queue(fr) else []))
             if self.connects_now:
                 self.report('connect-after-stop', 'after manual-stop, event %s made the agent call connectTCP' % ev, feats)
             rs = w.rest_state()
